@@ -1862,7 +1862,13 @@ class System:
                 while bstate[0] > 0.0 and bstate[1] > cutoff:
                     self._g[pidx]._params["vo"] = bstate[1]
                     self._g[pidx]._params["rs"] = bstate[2]
-                    _, i, _, _ = self._solve(phase=phase_list[phidx])
+                    _, i, iters, _ = self._solve(phase=phase_list[phidx])
+                    if iters > 10000:
+                        raise RuntimeError(
+                            "Steady-state not achieved after {} iterations".format(
+                                iters - 1
+                            )
+                        )
                     if phase_list == [""]:
                         deltat = (cap[0] / i[pidx]) * 3.6
                     else:
